@@ -48,6 +48,18 @@ CHECKS.update({
                     "object, weighted sum of single-coordinate losses, zero weight, coordinate and ensemble permutations, "
                     "non-negativity, zero at equality, ValueError on wrong-length weights/filters.",
             "note": "LikelihoodLoss exempt from weight clauses as documented; tolerance for summation-order changes."},
+    "C03": {"category": "exploration", "technique": PBT + " over (space, history, sampler, seed, call sequence) with an exact grid-membership oracle",
+            "text": "All nine built-in samplers, generated spaces (scales 1e-6..1e6, aligned and non-aligned upper bounds), on-grid "
+                    "histories with ties, 1-4 successive calls with the history extended as the calibrator does; every returned "
+                    "coordinate must be an element of the grid array itself and the shape (batch_size, d). Rediscovered the "
+                    "best-batch off-grid defect (fixed).",
+            "note": "third-party exceptions on degenerate histories are inconclusive; heavy samplers (GP/RF/CORS) get fewer cases."},
+    "C16": {"category": "exploration", "technique": PBT + " with a recording stub surrogate, wrapped built-in surrogates and a provenance search for best-batch",
+            "text": "History byte-identity for all nine samplers under extreme losses; stub and built-in surrogates: fit sees exactly "
+                    "the history, returned rows are pool rows whose predictions are the batch_size lowest (tie-aware multiset "
+                    "argument); best-batch: exhaustive search for a parent among the lowest-loss points and integer shifts. "
+                    "Rediscovered the XGBoost clip-in-place defect (fixed).",
+            "note": "dedup disabled for the surrogate clause; GP/CORS only with finite losses."},
 })
 NOT_APPLICABLE = {p: "check not built yet in this session (design in DESIGN.md section 3); will be claimed once its harness exists"
                   for p in ALL if p not in CHECKS}
